@@ -10,7 +10,7 @@
    No proofs here. *)
 From Coq Require Import List String Ascii Bool Arith.
 Import ListNotations.
-From DI Require Import Syntax Tokens Bounds Subs Superset Substitute Spec RustSem Group Search Gen.
+From DI Require Import Syntax Tokens Bounds Param Subs Superset Substitute Spec RustSem Group Search Gen.
 
 Definition bare_name (t : term) : option string :=
   (* a type or expression path that is a single identifier without arguments *)
@@ -331,6 +331,91 @@ Definition gen_main_render (tdef : term) (blocks : list term) : option term :=
                  match snd (snd e) with
                  | m0 :: _ => match nth_error blocks m0 with
                               | Some fb => gen_main_impl tdef (fst ie) fb (fst (snd e))
+                              | None => None
+                              end
+                 | [] => None
+                 end)
+              (combine (seq 0 (List.length gm)) gm))
+  end.
+
+(* ---- helper_trait.rs (header level, after fixes F12, F29): the helper trait of a family ---- *)
+Definition before_semi (s : string) : string :=
+  (fix go (s : string) : string :=
+     match s with
+     | EmptyString => EmptyString
+     | String c r => if Ascii.eqb c ";"%char then EmptyString else String c (go r)
+     end) s.
+
+Definition after_semi (s : string) : string :=
+  (fix go (s : string) : string :=
+     match s with
+     | EmptyString => EmptyString
+     | String c r => if Ascii.eqb c ";"%char then r else go r
+     end) s.
+
+Fixpoint insert_gp_by_name (gp : term) (sorted : list term) : list term :=
+  match sorted with
+  | [] => [gp]
+  | x :: r => if String.leb (ld (tlabel x)) (ld (tlabel gp)) then x :: insert_gp_by_name gp r else gp :: x :: r
+  end.
+Definition sort_gps_by_name (gps : list term) : list term := fold_left (fun acc gp => insert_gp_by_name gp acc) gps [].
+
+Definition gen_helper_trait (tdef : term) (idx : nat) (first_blk : term) (g : abg) : option term :=
+  let nkeys := List.length (abg_idents g) in
+  let base : option (list term * list term * string * string) :=
+    match first_blk with
+    | Node lb [Node _ gps; tr; self; _; _] =>
+        match opt_kid tr, tdef with
+        | Some _, Node lt [Node _ tps; Node _ tpreds] =>
+            if is_kind "Trait" lt then Some (tps, tpreds, before_semi (ld lt), after_semi (ld lt)) else None
+        | None, _ =>
+            match self with
+            | Node lty [_; Node _ segs] =>
+                match split_last segs with
+                | Some (_, Node ls _) =>
+                    if is_kind "TPath" lty then
+                      let bare := map (fun gp =>
+                        let n := ld (tlabel gp) in
+                        if is_kind "GPLifetime" (tlabel gp) then Node (K "GPLifetime" n) []
+                        else if is_kind "GPConst" (tlabel gp) then Node (K "GPConstD" n) (tkids gp ++ [Node (K "ONone" "") []])
+                        else Node (K "GPTypeD" n)
+                               (Node (K "ONone" "") [] ::
+                                (if existsb (term_eqb (mk_ty_param n)) (ab_unsized g) then [maybe_sized] else []))) gps in
+                      let lts := filter (fun gp => is_kind "GPLifetime" (tlabel gp)) bare in
+                      let others := filter (fun gp => negb (is_kind "GPLifetime" (tlabel gp))) bare in
+                      Some (sort_gps_by_name lts ++ sort_gps_by_name others, [], ld ls,
+                            if String.eqb (ld lb) "unsafe" then "true"%string else "false"%string)
+                    else None
+                | None => None
+                end
+            | _ => None
+            end
+        | _, _ => None
+        end
+    | _ => None
+    end in
+  match base with
+  | Some (gps, preds, name, uns) =>
+      let start := List.length gps in
+      let keys := map (fun i => Node (K "GPTypeD" (Param.canon_name (start + i))) [Node (K "ONone" "") []; maybe_sized])
+                      (seq 0 nkeys) in
+      let lts := filter (fun gp => is_kind "GPLifetime" (tlabel gp)) gps in
+      let others := filter (fun gp => negb (is_kind "GPLifetime" (tlabel gp))) gps in
+      Some (Node (K "Trait" (helper_ident name idx ++ ";" ++ uns))
+              [Node (K "Generics" "") (lts ++ keys ++ others); Node (K "Where" "") preds])
+  | None => None
+  end.
+
+Definition gen_helper_traits_render (tdef : term) (blocks : list term) : option term :=
+  match search (4 * List.length blocks + 8) blocks with
+  | None => None
+  | Some gm =>
+      option_map (fun ms => Node (K "HelperTraits" "") ms)
+        (omap (fun ie =>
+                 let e := snd ie in
+                 match snd (snd e) with
+                 | m0 :: _ => match nth_error blocks m0 with
+                              | Some fb => gen_helper_trait tdef (fst ie) fb (fst (snd e))
                               | None => None
                               end
                  | [] => None
